@@ -167,7 +167,22 @@ func buildHistCalls(filesDir string) ([]histCall, [][]byte) {
 	dec(16, "Decode(file#8 lossless)", files[8], "lossless.Decoder")
 	dec(17, "Decode(file#9 palette)", files[9], "lossless.Decoder")
 	dec(18, "Decode(file#11 lossless alpha)", files[11], "lossless.Decoder")
-	dec(19, "Decode(corrupted file#4: fails mid-picture)", corruptPayload(files[4], "VP8 "), "lossy.Decoder")
+	{
+		// a lossy decode that really fails inside the bitstream: garbage usually still "decodes", so the payload is cut
+		// (the frame header then announces more partition data than the chunk holds), the container stays consistent
+		bad := corruptPayload(files[4], "VP8 ")
+		if _, err := webp.Decode(bytes.NewReader(bad)); err == nil {
+			pl := findChunk(files[4], "VP8 ")
+			for _, keep := range []int{len(pl) / 2, len(pl) / 4, 30, 12} {
+				cand := wrapVP8(pl[:keep])
+				if _, err := webp.Decode(bytes.NewReader(cand)); err != nil {
+					bad = cand
+					break
+				}
+			}
+		}
+		dec(19, "Decode(corrupted file#4: fails mid-picture)", bad, "lossy.Decoder")
+	}
 	dec(20, "Decode(corrupted file#10: fails mid-stream)", corruptPayload(files[10], "VP8L"), "lossless.Decoder")
 	animIn := []*image.NRGBA{noiseNRGBA(rng, 24, 20, 1), noiseNRGBA(rng, 24, 20, 2)}
 	calls[21] = histCall{"AnimEncode+playback", "", func() (string, any) {
